@@ -13,7 +13,10 @@
 // What the abstract model cannot know (iteration order of a hash table, capacity chosen by a growth) is read from
 // the real container after the call and written into the operation line.
 // VF_PART: 0 HashSet, 1 HashMap, 2 TreeSet, 6 TreeMultiSet / TreeMap, 3 HashMultiMap, 4 Array (index iterators) / SegmentedArray,
-//          5 DataTable (static columns, row numbers), 7 DataTable (dynamic columns)
+//          5 DataTable (static columns, row numbers), 7 DataTable (dynamic columns),
+//          8 TreeSet / TreeMultiSet / TreeMap with checkVersion = false (the null-node checks of the iterator are the only guard)
+// Directed blocks (property level only, no model lines): extracted-item holders in the wrong state (parts 0, 1, 2, 6, 8),
+// hash traits whose growth answers are illegal (parts 0, 1: HashSet.h pvGetNewLogBucketCount / pvAddGrow).
 #ifndef VF_PART
 #define VF_PART 0
 #endif
@@ -35,6 +38,7 @@
 #include <set>
 #include <map>
 #include <unistd.h>
+#include <fcntl.h>
 #include <sys/wait.h>
 
 using namespace vf;
@@ -100,6 +104,99 @@ struct Mods {
 	bool touched(const void* cell, uint64_t born) const { auto it = touch.find(cell); return it != touch.end() && it->second > born; }
 };
 
+// property-level judgement of a directed case that has no model line.  must > 0: the call has to throw std::invalid_argument and
+// leave everything as it was; must < 0: it has to succeed
+static void directed(Ctx& c, const std::string& cfg, int must, const std::string& outcome, bool unchanged, const std::string& what, const std::string& why) {
+	bool rejected = outcome == BAD;
+	c.stats.evaluations++;
+	if (!outcome.empty() && !rejected) c.fail("C15 %s: unexpected exception %s from %s", cfg.c_str(), outcome.c_str(), what.c_str());
+	if (rejected && !unchanged) c.fail("C15 %s: a call that threw invalid_argument changed its object: %s (%s)", cfg.c_str(), what.c_str(), why.c_str());
+	if (must > 0 && !rejected) c.fail("C15 %s: misuse not reported (%s): %s", cfg.c_str(), why.c_str(), what.c_str());
+	if (must < 0 && rejected) c.fail("C15 %s: valid use rejected: %s", cfg.c_str(), what.c_str());
+	if (must > 0) c.stats.count("must reject: " + why); else c.stats.count("must accept (directed case)");
+	c.stats.nontrivial(cfg + "|directed|" + what + "|" + (must > 0 ? why : "accept"));
+}
+
+// Extracted-item holders (SetExtractedItem, SetUtility.h:253-338; MapExtractedPair, MapUtility.h:903-950) of a container type with
+// exception-mode settings, in every state a holder can be in: each accessor (const and non-const), Create and Remove.
+// The adapter supplies: extN accessors, extRead / extReadMut(holder, i), extExpect(key, i), extCreate, extRemove, fillExt, insert, insertExt.
+template<typename Ad>
+static void runHolderChecks(Ctx& c, const std::string& cfg0) {
+	typedef typename Ad::Ext Ext;
+	typedef typename Ad::C C;
+	std::string cfg = cfg0 + " extracted-item holder";
+	auto probe = [&](Ext& e, bool full, uint32_t k, const std::string& state) {
+		for (int i = 0; i < Ad::extN; ++i) {
+			const Ext& ce = e;
+			uint32_t got = 0;
+			std::string ex = guard([&] { got = Ad::extRead(ce, i); });
+			directed(c, cfg, full ? -1 : 1, ex, e.IsEmpty() == !full, fmt("const accessor %d, holder %s", i, state.c_str()), "const accessor of an empty extracted-item holder");
+			if (full && ex.empty() && got != Ad::extExpect(k, i)) c.fail("C15 %s: const accessor %d of a holder %s returned %u, expected %u", cfg.c_str(), i, state.c_str(), got, Ad::extExpect(k, i));
+			got = 0;
+			ex = guard([&] { got = Ad::extReadMut(e, i); });
+			directed(c, cfg, full ? -1 : 1, ex, e.IsEmpty() == !full, fmt("accessor %d, holder %s", i, state.c_str()), "accessor of an empty extracted-item holder");
+			if (full && ex.empty() && got != Ad::extExpect(k, i)) c.fail("C15 %s: accessor %d of a holder %s returned %u, expected %u", cfg.c_str(), i, state.c_str(), got, Ad::extExpect(k, i));
+		}
+		// Create needs an empty holder, Remove a full one; a rejected call must not run the functor and must keep the state
+		bool called = false;
+		if (full) {
+			std::string ex = guard([&] { Ad::extCreate(e, k + 1, called); });
+			bool same = !e.IsEmpty() && !called && Ad::extRead(e, 0) == Ad::extExpect(k, 0);
+			directed(c, cfg, 1, ex, same, "Create, holder " + state, "Create on a full extracted-item holder");
+		} else {
+			std::string ex = guard([&] { Ad::extRemove(e, called); });
+			directed(c, cfg, 1, ex, e.IsEmpty() && !called, "Remove, holder " + state, "Remove on an empty extracted-item holder");
+		}
+	};
+	{ Ext e; probe(e, false, 0, "default-constructed"); }
+	{ Ext e; Ad::fillExt(e, 5); probe(e, true, 5, "filled by Create"); }
+	{ Ext e; Ad::fillExt(e, 5); e.Clear(); probe(e, false, 0, "cleared"); e.Clear(); probe(e, false, 0, "cleared twice"); }
+	{ Ext e; Ad::fillExt(e, 6); Ext e2(std::move(e)); probe(e, false, 0, "moved-from"); probe(e2, true, 6, "move-constructed from a full holder"); }
+	{ Ext e; Ext e2(std::move(e)); probe(e, false, 0, "moved-from (was empty)"); probe(e2, false, 0, "move-constructed from an empty holder"); }
+	{
+		Ext e; Ad::fillExt(e, 7); bool called = false;
+		std::string ex = guard([&] { Ad::extRemove(e, called); });
+		directed(c, cfg, -1, ex, true, "Remove, holder filled by Create", "");
+		if (!called || !e.IsEmpty()) c.fail("C15 %s: Remove on a full holder did not run the remover / left the holder full", cfg.c_str());
+		probe(e, false, 0, "emptied by Remove");
+		called = false;
+		ex = guard([&] { Ad::extCreate(e, 8, called); });
+		directed(c, cfg, -1, ex, true, "Create, holder emptied by Remove", "");
+		if (!called) c.fail("C15 %s: Create on an empty holder did not run the creator", cfg.c_str());
+		probe(e, true, 8, "filled again");
+	}
+	{
+		C t; for (uint32_t k : { 5u, 12u, 23u }) Ad::insert(t, k, 0);
+		Ext e(t.Extract(t.Find(12)));
+		probe(e, true, 12, "filled by Extract");
+		std::string ex = guard([&] { Ad::insertExt(t, e); });
+		directed(c, cfg, -1, ex, true, "Insert(holder filled by Extract)", "");
+		probe(e, false, 0, "emptied by Insert");
+		if (t.GetCount() != 3 || !t.ContainsKey(12)) c.fail("C15 %s: Extract + Insert(extracted) lost an element", cfg.c_str());
+		// a holder emptied by a successful Insert is refused by the next Insert (the container stays as it is)
+		ex = guard([&] { Ad::insertExt(t, e); });
+		directed(c, cfg, 1, ex, t.GetCount() == 3 && e.IsEmpty(), "Insert(holder emptied by Insert)", "empty extracted-item holder");
+	}
+	c.stats.count("holder state blocks");
+}
+// holder access of the set adapters (one accessor: GetItem) and of the map adapters (GetKey, GetValue; value = key + 1)
+struct SetHolderOps {
+	static const int extN = 1;
+	template<typename Ext> static uint32_t extRead(const Ext& e, int) { return e.GetItem(); }
+	template<typename Ext> static uint32_t extReadMut(Ext& e, int) { return e.GetItem(); }
+	static uint32_t extExpect(uint32_t k, int) { return k; }
+	template<typename Ext> static void extCreate(Ext& e, uint32_t k, bool& called) { e.Create([k, &called](uint32_t* q) { called = true; *q = k; }); }
+	template<typename Ext> static void extRemove(Ext& e, bool& called) { e.Remove([&called](uint32_t&) { called = true; }); }
+};
+struct MapHolderOps {
+	static const int extN = 2;
+	template<typename Ext> static uint32_t extRead(const Ext& e, int i) { return i == 0 ? e.GetKey() : e.GetValue(); }
+	template<typename Ext> static uint32_t extReadMut(Ext& e, int i) { return i == 0 ? e.GetKey() : e.GetValue(); }
+	static uint32_t extExpect(uint32_t k, int i) { return i == 0 ? k : k + 1; }
+	template<typename Ext> static void extCreate(Ext& e, uint32_t k, bool& called) { e.Create([k, &called](uint32_t* q, uint32_t* v) { called = true; *q = k; *v = k + 1; }); }
+	template<typename Ext> static void extRemove(Ext& e, bool& called) { e.Remove([&called](uint32_t&, uint32_t&) { called = true; }); }
+};
+
 // ============================================================================================================
 #if VF_PART == 0 || VF_PART == 1
 // ---------------------------------------------------------------- HashSet / HashMap
@@ -126,7 +223,7 @@ struct ModTraits : public momo::HashTraits<uint32_t, HashBucket> {
 };
 
 template<typename Traits>
-struct SetAd {
+struct SetAd : SetHolderOps {
 	typedef momo::HashSet<uint32_t, Traits, MM, momo::HashSetItemTraits<uint32_t, MM>, XSet> C;
 	typedef typename C::ConstIterator It;
 	typedef typename C::ConstPosition Pos;
@@ -164,7 +261,7 @@ struct SetAd {
 };
 
 template<typename Traits>
-struct MapAd {
+struct MapAd : MapHolderOps {
 	typedef momo::HashMap<uint32_t, uint32_t, Traits, MM, momo::HashMapKeyValueTraits<uint32_t, uint32_t, MM>, XMap> C;
 	typedef typename C::ConstIterator It;
 	typedef typename C::ConstPosition Pos;
@@ -616,10 +713,120 @@ static void runHash(Ctx& c, Rng& rng, const std::string& suite, const std::strin
 	int n = c.thorough ? 400 : 60;
 	for (int i = 0; i < n; ++i) r.randomHistory(c.thorough ? 160 : 80);
 }
+
+// ---- directed block: hash traits whose growth answers are illegal (HashSet.h:1003 `MOMO_CHECK(shift > 0)` in
+// pvGetNewLogBucketCount, :1135 `MOMO_CHECK(newCapacity > mCount)` in pvAddGrow).  The traits answer correctly until a run-time
+// switch is turned on; a call that has to grow the table must then throw std::invalid_argument and leave the table exactly as it
+// was (keys, capacity, bucket count, version); calls that need no growth and all calls after the switch is off must succeed.
+static bool g_shiftZero = false;                 // GetBucketCountShift answers 0
+static bool g_capLimit = false;                  // CalcCapacity answers at most g_capLimitValue
+static size_t g_capLimitValue = 0;
+template<typename HashBucket>
+struct GrowTraits : public ModTraits<HashBucket, true> {
+	typedef ModTraits<HashBucket, true> Base;
+	size_t GetBucketCountShift(size_t bucketCount, size_t bucketMaxItemCount) const noexcept {
+		return g_shiftZero ? 0 : Base::GetBucketCountShift(bucketCount, bucketMaxItemCount);
+	}
+	size_t CalcCapacity(size_t bucketCount, size_t bucketMaxItemCount) const noexcept {
+		size_t r = Base::CalcCapacity(bucketCount, bucketMaxItemCount);
+		return (g_capLimit && r > g_capLimitValue) ? g_capLimitValue : r;
+	}
+};
+
+template<typename Ad>
+static void runGrowthChecks(Ctx& c, const std::string& cfg0) {
+	typedef typename Ad::C C;
+	typedef typename Ad::Pos Pos;
+	std::string cfg = cfg0 + " growth";
+	struct Shot { std::vector<uint32_t> keys; size_t cap, buckets, version; bool operator==(const Shot& o) const { return keys == o.keys && cap == o.cap && buckets == o.buckets && version == o.version; } };
+	auto shot = [](C& t) {
+		Shot s; for (auto it = t.GetBegin(); !!it; ++it) s.keys.push_back(Ad::key(it)); std::sort(s.keys.begin(), s.keys.end());
+		s.cap = t.GetCapacity(); s.buckets = t.GetBucketCount(); s.version = *Ad::hs(t).mCrew.GetVersion(); return s;
+	};
+	// states: 0 no buckets; 1 first table full; 2 full after two growths; 3 full after Reserve(37); 4 full again after removals (older tables gone)
+	for (int st = 0; st < 5; ++st) {
+		g_shiftZero = g_capLimit = false;
+		C t; uint32_t next = 1;
+		auto fillUp = [&] { while (t.GetCount() < t.GetCapacity()) { uint32_t k = next++; Ad::insert(t, k, (int)k); } };
+		if (st == 1) { Ad::insert(t, next++, 0); fillUp(); }
+		if (st == 2) { Ad::insert(t, next++, 0); fillUp(); Ad::insert(t, next++, 1); fillUp(); Ad::insert(t, next++, 2); fillUp(); }
+		if (st == 3) { t.Reserve(37); fillUp(); }
+		if (st == 4) { Ad::insert(t, next++, 0); fillUp(); Ad::insert(t, next++, 0); fillUp(); for (uint32_t k = 1; k + 2 < next; k += 2) t.Remove(k); fillUp(); }
+		if (t.GetCount() != t.GetCapacity()) { c.fail("C15 %s: harness could not fill the table to its capacity (state %d)", cfg.c_str(), st); continue; }
+		std::string sname = fmt("state %d (count = capacity = %zu, %zu buckets)", st, t.GetCount(), t.GetBucketCount());
+		const uint32_t fresh = 900, fresh2 = 901;
+		uint32_t present = st == 0 ? 0 : Ad::key(t.GetBegin());
+		Shot before = shot(t);
+		Pos pos = t.Find(fresh);                        // made before the failing calls: stays valid, nothing is modified
+		auto rejectAll = [&](const std::string& sw, const std::string& why, bool withReserve) {
+			for (int v = 0; v < 5; ++v) {
+				std::string ex = guard([&] { Ad::insert(t, fresh, v); });
+				directed(c, cfg, 1, ex, shot(t) == before, fmt("Insert variant %d of a new key, %s, %s", v, sw.c_str(), sname.c_str()), why);
+			}
+			for (int v = 0; v < 4; ++v) {
+				std::string ex = guard([&] { Ad::add(t, pos, fresh, v); });
+				directed(c, cfg, 1, ex, shot(t) == before, fmt("Add(position) variant %d, %s, %s", v, sw.c_str(), sname.c_str()), why);
+			}
+			{
+				typename Ad::Ext e; Ad::fillExt(e, fresh);
+				std::string ex = guard([&] { Ad::insertExt(t, e); });
+				directed(c, cfg, 1, ex, shot(t) == before && !e.IsEmpty(), "Insert(extracted item), " + sw + ", " + sname, why);
+				ex = guard([&] { Ad::addExt(t, pos, e); });
+				directed(c, cfg, 1, ex, shot(t) == before && !e.IsEmpty(), "Add(position, extracted item), " + sw + ", " + sname, why);
+			}
+			{
+				std::string ex = guard([&] { Ad::insertRange(t, { fresh, fresh2 }, 0); });
+				directed(c, cfg, 1, ex, shot(t) == before, "Insert(range of new keys), " + sw + ", " + sname, why);
+			}
+			if (withReserve) {
+				std::string ex = guard([&] { t.Reserve(t.GetCapacity() + 1); });
+				directed(c, cfg, 1, ex, shot(t) == before, "Reserve(capacity + 1), " + sw + ", " + sname, why);
+				ex = guard([&] { t.Reserve(1000); });
+				directed(c, cfg, 1, ex, shot(t) == before, "Reserve(1000), " + sw + ", " + sname, why);
+			}
+			// no growth needed: must succeed although the switch is on
+			std::string ex = guard([&] { t.Reserve(t.GetCapacity()); });
+			directed(c, cfg, -1, ex, true, "Reserve(capacity), " + sw + ", " + sname, "");
+			if (st != 0) {
+				bool ins = true;
+				ex = guard([&] { ins = Ad::insert(t, present, 0).second; });
+				directed(c, cfg, -1, ex, true, "Insert of a stored key, " + sw + ", " + sname, "");
+				if (ins) c.fail("C15 %s: Insert of the stored key %u reported an insertion (%s)", cfg.c_str(), present, sname.c_str());
+				ex = guard([&] { (void)t.ContainsKey(fresh); (void)t.Find(present); });
+				directed(c, cfg, -1, ex, true, "Find / ContainsKey, " + sw + ", " + sname, "");
+			}
+			if (!(shot(t) == before)) c.fail("C15 %s: the table changed although every modifying call was refused (%s, %s)", cfg.c_str(), sw.c_str(), sname.c_str());
+		};
+		if (st != 0) {      // (a table without buckets takes GetLogStartBucketCount, no shift is asked for)
+			g_shiftZero = true;
+			rejectAll("GetBucketCountShift = 0", "hash traits answer bucket-count shift 0 (HashSet.h:1003)", true);
+			g_shiftZero = false;
+		}
+		for (size_t lim : { t.GetCount(), t.GetCount() / 2, (size_t)0 }) {
+			g_capLimit = true; g_capLimitValue = lim;
+			rejectAll(fmt("CalcCapacity <= %zu", lim), "hash traits answer a new capacity <= count (HashSet.h:1135)", false);
+			g_capLimit = false;
+		}
+		// switches off: the position made before the refused calls is still the position of `fresh`
+		std::string ex = guard([&] { Ad::add(t, pos, fresh, 0); });
+		directed(c, cfg, -1, ex, true, "Add(position made before the refused calls), switches off, " + sname, "");
+		Shot after = shot(t);
+		std::vector<uint32_t> expect = before.keys; expect.push_back(fresh); std::sort(expect.begin(), expect.end());
+		if (after.keys != expect || after.cap <= before.cap || after.buckets <= before.buckets)
+			c.fail("C15 %s: after the switches were turned off the table did not grow normally (%s): capacity %zu -> %zu, buckets %zu -> %zu, %zu keys", cfg.c_str(), sname.c_str(),
+				before.cap, after.cap, before.buckets, after.buckets, after.keys.size());
+		for (uint32_t k = 600; k < 640; ++k) Ad::insert(t, k, (int)k);      // (keys are compared modulo 1000; the fill keys stay below 600)
+		if (next >= 600) c.fail("C15 %s: harness: fill keys reached 600", cfg.c_str());
+		for (uint32_t k : expect) if (!t.ContainsKey(k)) c.fail("C15 %s: key %u lost after growth following refused calls (%s)", cfg.c_str(), k, sname.c_str());
+		if (t.GetCount() != expect.size() + 40) c.fail("C15 %s: count %zu after 40 more insertions, expected %zu (%s)", cfg.c_str(), t.GetCount(), expect.size() + 40, sname.c_str());
+		c.stats.count("growth-check states");
+	}
+	g_shiftZero = g_capLimit = false;
+}
 #endif
 
 // ============================================================================================================
-#if VF_PART == 2 || VF_PART == 6
+#if VF_PART == 2 || VF_PART == 6 || VF_PART == 8
 // ---------------------------------------------------------------- TreeSet / TreeMap
 
 struct XTSet : public momo::TreeSetSettings {
@@ -633,9 +840,9 @@ struct XTMap : public momo::TreeMapSettings {
 	static const bool checkVersion = true;
 };
 
-template<typename Traits>
-struct TSetAd {
-	typedef momo::TreeSet<uint32_t, Traits, MM, momo::TreeSetItemTraits<uint32_t, MM>, XTSet> C;
+template<typename Traits, typename Settings = XTSet>
+struct TSetAd : SetHolderOps {
+	typedef momo::TreeSet<uint32_t, Traits, MM, momo::TreeSetItemTraits<uint32_t, MM>, Settings> C;
 	typedef typename C::ConstIterator It;
 	typedef typename C::ExtractedItem Ext;
 	typedef C TS;
@@ -671,9 +878,9 @@ struct TSetAd {
 	static void fillExt(Ext& e, uint32_t k) { e.Clear(); e.Create([k](uint32_t* q) { *q = k; }); }
 };
 
-template<typename Traits>
-struct TMapAd {
-	typedef momo::TreeMap<uint32_t, uint32_t, Traits, MM, momo::TreeMapKeyValueTraits<uint32_t, uint32_t, MM>, XTMap> C;
+template<typename Traits, typename Settings = XTMap>
+struct TMapAd : MapHolderOps {
+	typedef momo::TreeMap<uint32_t, uint32_t, Traits, MM, momo::TreeMapKeyValueTraits<uint32_t, uint32_t, MM>, Settings> C;
 	typedef typename C::ConstIterator It;
 	typedef typename C::ExtractedPair Ext;
 	typedef decltype(C::mTreeSet) TS;
@@ -1131,6 +1338,376 @@ static void runTree(Ctx& c, Rng& rng, const std::string& suite, const std::strin
 	r.enumerate(c.thorough);
 	int n = c.thorough ? 400 : 60;
 	for (int i = 0; i < n; ++i) r.randomHistory(c.thorough ? 160 : 80);
+}
+
+// ---------------------------------------------------------------- TreeSet / TreeMap with checkVersion = false
+// VersionKeeper<Settings, false>::Check is empty, so the node checks of the iterator (TreeSet.h:60 operator++, :80 operator--,
+// :105 operator->, :141 ptCheck) are the only thing between a default-constructed iterator and a null-pointer access; with
+// checkVersion = true they are shadowed by the version check (a null iterator has no version cell).
+// Without version checks the use of a stale or foreign iterator is undefined, so this run only ever uses (a) the
+// default-constructed iterator and (b) iterators made after the last modifying call on their own tree, with that tree.  For these
+// two kinds of handle the model `ver` (which mirrors checkVersion = true) answers exactly as this configuration must, so the same
+// operation lines are emitted and compared (model level) next to the property-level judgement.
+struct XTSetNV : public momo::TreeSetSettings {
+	static const momo::CheckMode checkMode = momo::CheckMode::exception;
+	static const momo::ExtraCheckMode extraCheckMode = momo::ExtraCheckMode::nothing;
+	static const bool checkVersion = false;
+};
+struct XTMapNV : public momo::TreeMapSettings {
+	static const momo::CheckMode checkMode = momo::CheckMode::exception;
+	static const momo::ExtraCheckMode extraCheckMode = momo::ExtraCheckMode::nothing;
+	static const bool checkVersion = false;
+};
+
+template<typename Ad>
+struct TreeNVRun {
+	typedef typename Ad::C C;
+	typedef typename Ad::It It;
+	typedef typename Ad::Ext Ext;
+	Ctx& c; Rng& rng; Suite s; Judge j;
+	std::unique_ptr<C> obj[2];
+	std::unique_ptr<Ext> ext[2];
+	// owner: the object that made the iterator (-1: default-constructed); born / lastMod: serial numbers of modifying calls
+	struct Slot { It it; int owner = -1; int kind = T_NULL; uint64_t born = 0; uint32_t key = 0; size_t rank = 0; };
+	std::vector<Slot> slots;
+	uint64_t serial = 0, lastMod[2] = { 0, 0 };
+	int lastStored = -1;
+	enum { NUL = 9 };                            // this slot holds the default-constructed iterator during the whole scenario
+
+	TreeNVRun(Ctx& c_, Rng& r, const std::string& suite, const std::string& cfg)
+		: c(c_), rng(r), s(c_, suite, std::string("model ver fam=tree multi=") + (Ad::multi ? "1" : "0")), j(c_, s, cfg) {}
+
+	C& O(int o) { return *obj[o]; }
+	static char on(int o) { return o ? 'B' : 'A'; }
+	std::vector<uint32_t> keys(int o) { std::vector<uint32_t> v; for (auto it = O(o).GetBegin(); it != O(o).GetEnd(); ++it) v.push_back(Ad::key(it)); return v; }
+	std::string flags(int o) { auto& t = Ad::ts(O(o)); return std::string(" r") + (t.mRootNode != nullptr ? "1" : "0") + "p" + (t.mNodeParams != nullptr ? "1" : "0"); }
+	std::string tail() { return " | A=" + listStr(keys(0)) + flags(0) + " B=" + listStr(keys(1)) + flags(1); }
+	static bool isNull(const It& it) { return Ad::sit(it).mNode == nullptr; }
+	size_t rankIn(int o, const It& it) { size_t r = 0; for (auto x = O(o).GetBegin(); x != O(o).GetEnd() && x != it; ++x) ++r; return r; }
+	std::string desc(int o, const It& it) { return isNull(it) ? std::string("null") : "p" + std::to_string(rankIn(o, it)); }
+	void store(int d, int o, const It& it) {
+		if ((int)slots.size() <= d) slots.resize(d + 1);
+		Slot& sl = slots[d];
+		sl.it = it; sl.born = serial; lastStored = d;
+		if (isNull(it)) { sl.owner = -1; sl.kind = T_NULL; sl.rank = 0; sl.key = 0; return; }
+		sl.owner = o; sl.rank = rankIn(o, it);
+		sl.kind = it == O(o).GetEnd() ? T_END : T_ELEM;
+		sl.key = sl.kind == T_ELEM ? Ad::key(it) : 0;
+	}
+	// after a modifying call on object o: everything made earlier by o is out of bounds for this run; the iterator the call
+	// returned (stored during the call) is made after the modification
+	void modified(int o) { lastMod[o] = ++serial; if (lastStored >= 0 && slots[lastStored].owner == o) slots[lastStored].born = serial; }
+	bool usable(int h, int o) const { const Slot& sl = slots[h]; return sl.kind == T_NULL || (sl.owner == o && sl.born >= lastMod[o]); }
+	int own(int h) const { return slots[h].kind == T_NULL ? 0 : slots[h].owner; }
+	struct Snap {
+		std::vector<uint32_t> k[2]; bool root[2], params[2], extEmpty[2];
+		bool operator==(const Snap& x) const {
+			for (int o = 0; o < 2; ++o) if (k[o] != x.k[o] || root[o] != x.root[o] || params[o] != x.params[o] || extEmpty[o] != x.extEmpty[o]) return false;
+			return true;
+		}
+	};
+	Snap snap() {
+		Snap x;
+		for (int o = 0; o < 2; ++o) { x.k[o] = keys(o); x.root[o] = Ad::ts(O(o)).mRootNode != nullptr; x.params[o] = Ad::ts(O(o)).mNodeParams != nullptr; x.extEmpty[o] = ext[o]->IsEmpty(); }
+		return x;
+	}
+	void newScenario() {
+		slots.clear(); serial = 0; lastMod[0] = lastMod[1] = 0;
+		ext[0].reset(); ext[1].reset(); obj[0].reset(); obj[1].reset();
+		obj[0].reset(new C()); obj[1].reset(new C());
+		ext[0].reset(new Ext()); ext[1].reset(new Ext());
+		j.begin();
+		j.line("new", "ok" + tail());
+		hNull(NUL);
+	}
+
+	// ---- handle creation.  The model has no "default-constructed iterator" line: GetEnd() of a tree without root node returns it
+	// (TreeSet.h:591-596), which is checked here; the harness then keeps a genuinely default-constructed It()
+	void hNull(int d) {
+		if (Ad::ts(O(1)).mRootNode != nullptr) { c.fail("C15 %s: harness: object B must not have a root node when a null handle is made", j.cfg.c_str()); return; }
+		It e = O(1).GetEnd();
+		if (!(e == It()) || !isNull(e)) c.fail("C15 %s: GetEnd() of a tree without root node is not the default-constructed iterator; history: %s", j.cfg.c_str(), j.scen.c_str());
+		store(d, 1, It());
+		j.line(fmt("end B %d", d), "ok null" + tail());
+	}
+	void hBegin(int o, int d) { It it = O(o).GetBegin(); store(d, o, it); j.line(fmt("begin %c %d", on(o), d), "ok " + desc(o, it) + tail()); }
+	void hEnd(int o, int d) { It it = O(o).GetEnd(); store(d, o, it); j.line(fmt("end %c %d", on(o), d), "ok " + desc(o, it) + tail()); }
+	void hLower(int o, uint32_t k, int d) { It it = O(o).GetLowerBound(k); store(d, o, it); j.line(fmt("lower %c %u %d", on(o), k, d), "ok " + desc(o, it) + tail()); }
+	void hUpper(int o, uint32_t k, int d) { It it = O(o).GetUpperBound(k); store(d, o, it); j.line(fmt("upper %c %u %d", on(o), k, d), "ok " + desc(o, it) + tail()); }
+	void hFind(int o, uint32_t k, int d) { It it = O(o).Find(k); store(d, o, it); j.line(fmt("find %c %u %d", on(o), k, d), "ok " + desc(o, it) + tail()); }
+
+	// ---- modifying entry points without an iterator argument
+	void mInsert(int o, uint32_t k, int d) {
+		lastStored = -1;
+		auto r = Ad::insert(O(o), k, (int)rng.below(20));
+		store(d, o, r.first); modified(o);
+		j.mut(r.second ? "Insert(new key)" : "Insert(existing key)");
+		j.line(fmt("ins %c %u %d", on(o), k, d), fmt("ok %d ", (int)r.second) + desc(o, r.first) + tail());
+	}
+	void mInsertRange(int o, const std::vector<uint32_t>& ks) {
+		lastStored = -1;
+		Ad::insertRange(O(o), ks, (int)rng.below(4)); modified(o);
+		std::string l = fmt("insr %c", on(o));
+		for (uint32_t k : ks) l += " " + std::to_string(k);
+		j.mut("Insert(range)");
+		j.line(l, "ok" + tail());
+	}
+	void mRemoveKey(int o, uint32_t k) {
+		lastStored = -1;
+		size_t n = O(o).Remove(k); modified(o);
+		j.mut(n ? "Remove(key present)" : "Remove(key absent)");
+		j.line(fmt("rmk %c %u", on(o), k), fmt("ok %zu", n) + tail());
+	}
+	void mClear(int o) { lastStored = -1; O(o).Clear(); modified(o); j.mut("Clear"); j.line(fmt("clear %c", on(o)), "ok" + tail()); }
+	void mMerge(int src) {
+		lastStored = -1;
+		if (rng.below(2)) O(src).MergeTo(O(1 - src)); else O(1 - src).MergeFrom(O(src));
+		modified(0); modified(1);
+		j.mut(src ? "MergeFrom" : "MergeTo");
+		j.line(fmt("merge %c", on(src)), "ok" + tail());
+	}
+
+	// ---- uses.  must: +1 the call has to throw invalid_argument and change nothing, -1 it has to succeed.
+	bool use(std::vector<int> hs, int o, int must, const std::string& why, bool mutating, std::function<std::string()> call, const std::string& opline) {
+		for (int h : hs) if (!usable(h, o)) { c.stats.count("no-version run: use skipped, handle neither null nor fresh"); return false; }
+		Snap before = snap();
+		std::string kinds;
+		for (int h : hs) { kinds += tkName(slots[h].kind); kinds += hs.size() > 1 ? "," : ""; }
+		std::string res;
+		lastStored = -1;
+		std::string ex = guard([&] { res = call(); });
+		Snap after = snap();
+		if (mutating && ex.empty()) modified(o);
+		j.line(opline, (ex.empty() ? res : ex) + tail());
+		j.judge(must, ex, before == after, opline, why, kinds);
+		return ex == BAD;
+	}
+	static const char* whyNullArg() { return "default-constructed iterator passed to a TreeSet entry point, checkVersion = false (TreeSet.h:141 ptCheck)"; }
+
+	bool uDeref(int h) {
+		const Slot& sl = slots[h];
+		return use({ h }, own(h), sl.kind == T_ELEM ? -1 : 1,
+			sl.kind == T_NULL ? "default-constructed iterator dereferenced, checkVersion = false (TreeSet.h:105 operator->)" : "end iterator dereferenced, checkVersion = false (TreeSet.h:106)", false,
+			[&] { uint32_t k = rng.below(2) ? Ad::key(slots[h].it) : derefStar(slots[h].it); return "ok " + std::to_string(k); }, fmt("deref %d", h));
+	}
+	static uint32_t derefStar(const It& it) { auto&& r = *it; return keyOfRef(r); }
+	static uint32_t keyOfRef(const uint32_t& r) { return r; }
+	template<typename R> static uint32_t keyOfRef(const R& r) { return r.key; }
+	bool uInc(int h, int d) {
+		const Slot& sl = slots[h]; int o = own(h);
+		return use({ h }, o, sl.kind == T_ELEM ? -1 : 1,
+			sl.kind == T_NULL ? "default-constructed iterator incremented, checkVersion = false (TreeSet.h:60 operator++)" : "end iterator incremented, checkVersion = false (TreeSet.h:61)", false,
+			[&] { It it = slots[h].it; if (rng.below(2)) ++it; else it++; store(d, o, it); return "ok " + desc(o, it); }, fmt("inc %d %d", h, d));
+	}
+	bool uDec(int h, int d) {
+		const Slot& sl = slots[h]; int o = own(h);
+		bool ok = sl.kind != T_NULL && sl.rank != 0;
+		return use({ h }, o, ok ? -1 : 1,
+			sl.kind == T_NULL ? "default-constructed iterator decremented, checkVersion = false (TreeSet.h:80 operator--)" : "first position decremented, checkVersion = false (TreeSet.h:94)", false,
+			[&] { It it = slots[h].it; if (rng.below(2)) --it; else it--; store(d, o, it); return "ok " + desc(o, it); }, fmt("dec %d %d", h, d));
+	}
+	bool uCheck(int h, int o, bool ae) {
+		bool ok = ae || slots[h].kind != T_NULL;
+		return use({ h }, o, ok ? -1 : 1, "CheckIterator(default-constructed iterator, allowEmpty = false), checkVersion = false (TreeSet.h:141 ptCheck)", false,
+			[&] { O(o).CheckIterator(slots[h].it, ae); return std::string("ok"); }, fmt("check %c %d %d", on(o), h, (int)ae));
+	}
+	uint32_t keyBefore(int h, int o) {
+		const Slot& sl = slots[h];
+		if (sl.kind == T_ELEM) return sl.key - 1;
+		std::vector<uint32_t> ks = keys(o);
+		return ks.empty() ? 500 : ks.back() + 5;
+	}
+	bool rooted(int o) { return Ad::ts(O(o)).mRootNode != nullptr; }
+	bool uAdd(int h, int o, int d) {
+		uint32_t k = keyBefore(h, o);
+		// a tree without root node accepts exactly the default-constructed iterator (pvAddFirst); one with a root node needs a position
+		bool ok = rooted(o) ? slots[h].kind != T_NULL : slots[h].kind == T_NULL;
+		bool rej = use({ h }, o, ok ? -1 : 1, whyNullArg(), true,
+			[&] { It p = Ad::add(O(o), slots[h].it, k, (int)rng.below(12)); store(d, o, p); return "ok " + desc(o, p); }, fmt("add %c %d %u %d", on(o), h, k, d));
+		if (!rej) j.mut("Add(iterator)");
+		return rej;
+	}
+	bool uAddExt(int h, int o, bool full, int d) {
+		if (!rooted(o)) return false;                   // (not modelled, see TreeRun::uAddExt)
+		uint32_t k = keyBefore(h, o);
+		if (full) Ad::fillExt(*ext[o], k); else ext[o]->Clear();
+		bool ok = slots[h].kind != T_NULL && full;
+		bool rej = use({ h }, o, ok ? -1 : 1, slots[h].kind == T_NULL ? whyNullArg() : "extracted-item holder in the wrong state", true,
+			[&] { It p = Ad::addExt(O(o), slots[h].it, *ext[o]); store(d, o, p); return "ok " + desc(o, p); }, fmt("addx %c %d %d %u %d", on(o), h, (int)full, k, d));
+		if (!rej) j.mut("Add(iterator, extracted item)");
+		return rej;
+	}
+	const char* whyElem(int h) { return slots[h].kind == T_NULL ? whyNullArg() : "end iterator where an element is required"; }
+	bool uRemove(int h, int o, int d) {
+		bool rej = use({ h }, o, slots[h].kind == T_ELEM ? -1 : 1, whyElem(h), true,
+			[&] { It r = O(o).Remove(slots[h].it); store(d, o, r); return "ok " + desc(o, r); }, fmt("rm %c %d %d", on(o), h, d));
+		if (!rej) j.mut("Remove(iterator)");
+		return rej;
+	}
+	bool uExtract(int h, int o, int d) {
+		bool rej = use({ h }, o, slots[h].kind == T_ELEM ? -1 : 1, whyElem(h), true,
+			[&] { size_t rk = slots[h].rank; Ad::extract(O(o), slots[h].it); It r = O(o).GetBegin(); for (size_t i = 0; i < rk; ++i) ++r; store(d, o, r); return "ok " + desc(o, r); }, fmt("rm %c %d %d", on(o), h, d));
+		if (!rej) j.mut("Extract(iterator)");
+		return rej;
+	}
+	bool uRemoveExt(int h, int o, bool holderFull, int d) {
+		if (holderFull) Ad::fillExt(*ext[o], 777); else ext[o]->Clear();
+		bool ok = slots[h].kind == T_ELEM && !holderFull;
+		bool rej = use({ h }, o, ok ? -1 : 1, holderFull ? "extracted-item holder in the wrong state" : whyElem(h), true,
+			[&] { It r = Ad::removeExt(O(o), slots[h].it, *ext[o]); store(d, o, r); return "ok " + desc(o, r); }, fmt("rmx %c %d %d %d", on(o), h, (int)holderFull, d));
+		if (!rej) j.mut("Remove(iterator, extracted item)");
+		return rej;
+	}
+	bool uRemoveRange(int hb, int he, int o, int d) {
+		bool anyNull = slots[hb].kind == T_NULL || slots[he].kind == T_NULL;
+		// no root node: exactly (It(), It()) is accepted; with a root node both must be positions and begin must not lie behind end
+		bool ok = rooted(o) ? (!anyNull && slots[hb].rank <= slots[he].rank) : (slots[hb].kind == T_NULL && slots[he].kind == T_NULL);
+		bool rej = use({ hb, he }, o, ok ? -1 : 1, anyNull ? whyNullArg() : "invalid range", true,
+			[&] { It r = O(o).Remove(slots[hb].it, slots[he].it); store(d, o, r); return "ok " + desc(o, r); }, fmt("rmr %c %d %d %d", on(o), hb, he, d));
+		if (!rej) j.mut("Remove(range)");
+		return rej;
+	}
+	bool uResetKey(int h, int o) {
+		uint32_t k = slots[h].kind == T_ELEM ? slots[h].key + 1 : 999;
+		bool rej = use({ h }, o, slots[h].kind == T_ELEM ? -1 : 1, whyElem(h), true,
+			[&] { O(o).ResetKey(slots[h].it, k); return std::string("ok"); }, fmt("rk %c %d %u", on(o), h, k));
+		if (!rej) j.mut("ResetKey");
+		return rej;
+	}
+
+	// ------------------------------------------------------------------------------------------------ enumeration
+	static const int NSTATE = 7, NHANDLE = 8, NUSE = 19;
+	std::vector<uint32_t> stateKeys(int st) {
+		std::vector<uint32_t> v;
+		switch (st) {
+		case 0: case 1: case 2: return v;
+		case 3: return { 50 };
+		case 4: return { 20, 30, 40, 50, 60 };
+		case 5: for (uint32_t i = 0; i < 40; ++i) v.push_back(10 + 4 * i); return v;      // more than one node
+		default: if (Ad::multi) return { 20, 30, 30, 30, 40 }; return { 20, 30, 33, 36, 40 };
+		}
+	}
+	void build(int st) {
+		newScenario();
+		if (st == 1) { mInsert(0, 50, 30); mRemoveKey(0, 50); }                           // root node without elements
+		if (st == 2) { mInsert(0, 50, 30); mInsert(1, 60, 30); mMerge(0); mClear(1); }     // no root node, node params present
+		std::vector<uint32_t> ks = stateKeys(st);
+		if (ks.size() > 6) mInsertRange(0, ks); else for (uint32_t k : ks) mInsert(0, k, 30);
+	}
+	// the handle under test: its slot number, or -1 when the kind does not exist in this state
+	int makeHandle(int hk, int st) {
+		std::vector<uint32_t> ks = stateKeys(st);
+		switch (hk) {
+		case 0: return NUL;                                                                // default-constructed
+		case 1: hBegin(0, 0); return 0;
+		case 2: hEnd(0, 0); return 0;
+		case 3: if (ks.empty()) return -1; hFind(0, ks[ks.size() / 2], 0); return 0;
+		case 4: hLower(0, ks.empty() ? 7 : ks.back() - 1, 0); return 0;
+		case 5: hUpper(0, ks.empty() ? 7 : ks[0], 0); return 0;
+		case 6: if (ks.empty()) return -1; mInsert(0, ks[0], 0); return 0;                  // iterator returned by an insert
+		default: if (ks.size() < 2) return -1; hBegin(0, 1); uInc(1, 0); return 0;         // advanced iterator
+		}
+	}
+	void applyUse(int u, int h) {
+		switch (u) {
+		case 0: uDeref(h); break;
+		case 1: uInc(h, 40); break;
+		case 2: uDec(h, 40); break;
+		case 3: uCheck(h, 0, true); break;
+		case 4: uCheck(h, 0, false); break;
+		case 5: uAdd(h, 0, 40); break;
+		case 6: uAddExt(h, 0, true, 40); break;
+		case 7: uAddExt(h, 0, false, 40); break;
+		case 8: uRemove(h, 0, 40); break;
+		case 9: uRemoveExt(h, 0, false, 40); break;
+		case 10: uRemoveExt(h, 0, true, 40); break;
+		case 11: uExtract(h, 0, 40); break;
+		case 12: uResetKey(h, 0); break;
+		case 13: hEnd(0, 41); uRemoveRange(h, 41, 0, 40); break;       // [handle, fresh end)
+		case 14: hBegin(0, 41); uRemoveRange(41, h, 0, 40); break;     // [fresh begin, handle)
+		case 15: uRemoveRange(h, h, 0, 40); break;                     // empty range at the handle
+		case 16: hBegin(0, 41); uRemoveRange(h, 41, 0, 40); break;     // reversed unless the handle is the first position
+		case 17: uRemoveRange(NUL, h, 0, 40); break;                   // default-constructed begin
+		default: uRemoveRange(h, NUL, 0, 40); break;                   // default-constructed end
+		}
+	}
+	void enumerate() {
+		for (int st = 0; st < NSTATE; ++st)
+			for (int hk = 0; hk < NHANDLE; ++hk)
+				for (int u = 0; u < NUSE; ++u) {
+					build(st);
+					int h = makeHandle(hk, st);
+					if (h < 0) continue;
+					applyUse(u, h);
+					// the iterator a successful use returned is fresh: it must be usable at once
+					if (slots.size() > 40 && lastStored == 40 && usable(40, 0)) { uCheck(40, 0, false); if (slots[40].kind == T_ELEM) uDeref(40); }
+					c.stats.count("no-version triples executed");
+				}
+	}
+	// random histories over a pool of handles; a use whose handle is neither null nor fresh is skipped
+	static bool le(uint32_t a, uint32_t b) { return Ad::multi ? a <= b : a < b; }
+	bool addFits(int h, int o) {
+		if (slots[h].kind == T_NULL || !usable(h, o)) return true;
+		std::vector<uint32_t> ks = keys(o);
+		uint32_t k = keyBefore(h, o);
+		size_t r = slots[h].rank;
+		if (r > ks.size()) return false;
+		return (r == 0 || le(ks[r - 1], k)) && (r == ks.size() || le(k, ks[r]));
+	}
+	bool resetFits(int h, int o) {
+		if (slots[h].kind != T_ELEM || !usable(h, o)) return true;
+		std::vector<uint32_t> ks = keys(o);
+		uint32_t k = slots[h].key + 1;
+		size_t r = slots[h].rank;
+		if (r >= ks.size()) return false;
+		return (r == 0 || le(ks[r - 1], k)) && (r + 1 == ks.size() || le(k, ks[r + 1]));
+	}
+	int pickHandle(int o, int nslots) {
+		for (int t = 0; t < 4; ++t) { int h = (int)rng.below(nslots); if ((int)slots.size() > h && usable(h, o) && (slots[h].kind == T_NULL || slots[h].owner == o)) return h; }
+		return NUL;
+	}
+	void randomHistory(int steps) {
+		newScenario();
+		int nslots = 6;
+		for (int d = 0; d < nslots; ++d) hNull(d);
+		for (int i = 0; i < steps; ++i) {
+			int o = (int)rng.below(2);
+			uint32_t k = 10 + 3 * (uint32_t)rng.below(20);
+			int d = (int)rng.below(nslots), h = pickHandle(o, nslots);
+			switch (rng.below(22)) {
+			case 0: case 1: case 2: mInsert(o, k, d); break;
+			case 3: hFind(o, k, d); break;
+			case 4: hBegin(o, d); break;
+			case 5: hLower(o, k + 1, d); break;
+			case 6: hEnd(o, d); break;
+			case 7: if (rng.below(2)) mRemoveKey(o, k); break;
+			case 8: if (rng.below(6) == 0) mClear(o); break;
+			case 9: if (rng.below(6) == 0) mMerge(o); break;
+			case 10: uDeref(h); break;
+			case 11: uInc(h, d); break;
+			case 12: uDec(h, d); break;
+			case 13: uRemove(h, o, d); break;
+			case 14: uCheck(h, o, rng.below(2)); break;
+			case 15: uRemoveExt(h, o, rng.below(3) == 0, d); break;
+			case 16: if (addFits(h, o)) uAdd(h, o, d); break;
+			case 17: uExtract(h, o, d); break;
+			case 18: { int h2 = pickHandle(o, nslots); uRemoveRange(h, h2, o, d); break; }
+			case 19: if (resetFits(h, o)) uResetKey(h, o); break;
+			case 20: if (addFits(h, o)) uAddExt(h, o, rng.below(3) != 0, d); break;
+			default: hUpper(o, k, d); break;
+			}
+		}
+		c.stats.count("random histories");
+	}
+};
+
+template<typename Ad>
+static void runTreeNV(Ctx& c, Rng& rng, const std::string& suite, const std::string& cfg) {
+	TreeNVRun<Ad> r(c, rng, suite, cfg);
+	r.enumerate();
+	int n = c.thorough ? 300 : 50;
+	for (int i = 0; i < n; ++i) r.randomHistory(c.thorough ? 160 : 80);
+	runHolderChecks<Ad>(c, cfg);
 }
 #endif
 
@@ -1658,6 +2235,41 @@ struct ArrRun {
 			[&](std::vector<uint32_t>& r) { r.resize(r.size() - n); });
 	}
 	void clear(int o) { if (o) b->Clear(); else a->Clear(); ref[o].clear(); j.mut("Clear"); j.line(fmt("clear %c", on(o)), "ok" + tail()); }
+	// operator[] / GetBackItem through a const reference (Array.h:767-771 is a check of its own; SegmentedArray shares pvGetItem)
+	void atConst(int o, size_t i) {
+		call(o, fmt("at %c %zu", on(o), i), i < ref[o].size(), "out-of-range index (const operator[])",
+			[&] { const ArrA& x = *a; return "ok " + std::to_string(x[i]); }, [&] { const ArrB& x = *b; return "ok " + std::to_string(x[i]); }, [](std::vector<uint32_t>&) {});
+	}
+	void backConst(int o) {
+		call(o, fmt("back %c", on(o)), !ref[o].empty(), "GetBackItem of an empty array (const)",
+			[&] { const ArrA& x = *a; return "ok " + std::to_string(x.GetBackItem()); }, [&] { const ArrB& x = *b; return "ok " + std::to_string(x.GetBackItem()); }, [](std::vector<uint32_t>&) {});
+	}
+	// AddBackNogrow / AddBackNogrowVar / AddBackNogrowCrt: accepted exactly while count < capacity.  The capacity is not part of the
+	// model's state: it is read from the real object and written on the operation line.  Reserve changes no contents: no line.
+	size_t capOf(int o) { return o ? b->GetCapacity() : a->GetCapacity(); }
+	void reserve(int o, size_t n) { if (o) b->Reserve(n); else a->Reserve(n); j.mut("Reserve"); if (!same()) c.fail("C15 %s: Reserve(%zu) changed the contents; history: %s", j.cfg.c_str(), n, j.scen.c_str()); }
+	template<typename A> static void nogrow(A& x, uint32_t v, int variant) {
+		switch (variant) {
+		case 0: x.AddBackNogrow(v); break;
+		case 1: { uint32_t t = v; x.AddBackNogrow(std::move(t)); break; }
+		case 2: x.AddBackNogrowVar(v); break;
+		default: x.AddBackNogrowCrt([v](uint32_t* p) { *p = v; }); break;
+		}
+	}
+	void addBackNogrow(int o, uint32_t v) {
+		size_t cap = capOf(o); int variant = (int)rng.below(4);
+		j.mut("AddBackNogrow");
+		call(o, fmt("addbn %c %u %zu", on(o), v, cap), ref[o].size() < cap, "AddBackNogrow without spare capacity",
+			[&] { nogrow(*a, v, variant); return std::string("ok"); }, [&] { nogrow(*b, v, variant); return std::string("ok"); },
+			[&](std::vector<uint32_t>& r) { r.push_back(v); });
+		if (capOf(o) != cap) c.fail("C15 %s: AddBackNogrow changed the capacity %zu -> %zu; history: %s", j.cfg.c_str(), cap, capOf(o), j.scen.c_str());
+	}
+	// fills the spare capacity item by item (every call must be accepted), then two more calls (both must be refused)
+	void nogrowToTheBrim(int o) {
+		for (int t = 0; t < 200 && ref[o].size() < capOf(o); ++t) addBackNogrow(o, 300 + (uint32_t)t);
+		addBackNogrow(o, 98); addBackNogrow(o, 99);
+		c.stats.count("AddBackNogrow runs up to the capacity");
+	}
 
 	// ---- index iterators
 	Slot& slot(int d) { if ((int)slots.size() <= d) slots.resize(d + 1); return slots[d]; }
@@ -1708,12 +2320,15 @@ struct ArrRun {
 				// index-checked entry points: every index / count around the size plus huge values
 				std::vector<size_t> idx; for (size_t i = 0; i <= n + 2; ++i) idx.push_back(i); for (size_t x : big) idx.push_back(x);
 				for (size_t i : idx) {
-					fill(); at(o, i);
+					fill(); at(o, i); fill(); atConst(o, i);
 					fill(); insert(o, i, 1, 99); fill(); insert(o, i, 0, 99); fill(); insert(o, i, 3, 98);
 					fill(); removeBack(o, i);
 					for (size_t k : idx) { fill(); remove(o, i, k); c.stats.count("Remove(index, count) pairs"); }
 				}
-				fill(); back(o);
+				fill(); back(o); fill(); backConst(o);
+				fill(); nogrowToTheBrim(o);
+				fill(); reserve(o, n + 3); nogrowToTheBrim(o);
+				fill(); reserve(o, 2 * n + 9); removeBack(o, n / 2); nogrowToTheBrim(o); clear(o); nogrowToTheBrim(o);
 				// iterators
 				for (long long dd = -(long long)n - 2; dd <= (long long)n + 2; ++dd)
 					for (size_t start = 0; start <= n; ++start) {
@@ -1749,7 +2364,10 @@ struct ArrRun {
 			for (int i = 0; i < 80; ++i) {
 				int o = (int)rng.below(2); size_t n = ref[o].size();
 				size_t any = rng.below(5) == 0 ? big[rng.below(big.size())] : rng.below(n + 3);
-				switch (rng.below(11)) {
+				switch (rng.below(14)) {
+				case 11: addBackNogrow(o, (uint32_t)rng.below(100)); break;
+				case 12: if (rng.below(3) == 0) reserve(o, n + rng.below(6)); else backConst(o); break;
+				case 13: atConst(o, any); break;
 				case 0: case 1: addBack(o, (uint32_t)rng.below(100)); break;
 				case 2: at(o, any); break;
 				case 3: insert(o, any, rng.below(3), (uint32_t)rng.below(100)); break;
@@ -1799,7 +2417,7 @@ struct CLStatic {      // static column list, rows keep their number (Remove(ran
 	static const decltype(ca)& A() { return ca; }
 	static const decltype(cb)& B() { return cb; }
 	static const decltype(cid)& ID() { return cid; }
-	static List make() { return List(); }
+	static List make() { List l; l.SetMutable(cid); return l; }     // column id is mutable (DataTable::pvCheckImmutable, RowReference::GetMutable)
 };
 struct CLDynamic {     // dynamic column list, no row numbers (Remove(range) / Assign go through a hash set of raws)
 	typedef momo::DataColumnList<momo::DataColumnTraits<DynStruct>, MM, momo::DataItemTraits<MM>, XData<false>> List;
@@ -1807,7 +2425,7 @@ struct CLDynamic {     // dynamic column list, no row numbers (Remove(range) / A
 	static const decltype(dynA)& A() { return dynA; }
 	static const decltype(dynB)& B() { return dynB; }
 	static const decltype(dynId)& ID() { return dynId; }
-	static List make() { List l; l.Add(dynA); l.Add(dynB); l.Add(dynId); return l; }
+	static List make() { List l; l.Add(dynA); l.Add(dynB); l.Add(dynId.Mutable()); return l; }
 };
 
 static std::string ilist(const std::vector<int>& v) {
@@ -2143,6 +2761,172 @@ struct TableRun {
 		verdictLine(v, ex, before, fmt("mbat %d %zu %d", h, i, d), "ok", "row bounds of FindByMultiHash");
 	}
 
+	// ------------------------------------------------------------------------------------------------ directed misuse
+	// Uses that are wrong whatever happened before (property level only, no operation line: nothing may change): a row of another
+	// table, an index over a mutable column or over the same column twice, GetMutable of an immutable column, a row number past the
+	// end through a const table, and every arithmetic / dereference / comparison check of the iterators of row pointers
+	// (FindByUniqueHash), row bounds (FindByMultiHash), selections, the table and column item bounds.  All handles are fresh.
+	size_t idxCount(int o) { return O(o).mIndexes.mUniqueHashes.GetCount() * 100 + O(o).mIndexes.mMultiHashes.GetCount(); }
+	void expectUse(bool mustReject, const std::string& what, const std::string& why, const std::function<void()>& f, const std::function<bool()>& alsoUnchanged = nullptr) {
+		Snap before = snap(); size_t ic[2] = { idxCount(0), idxCount(1) };
+		std::string ex = guard(f);
+		bool unchanged = before == snap() && ic[0] == idxCount(0) && ic[1] == idxCount(1) && (!alsoUnchanged || alsoUnchanged());
+		directed(c, j.cfg, mustReject ? 1 : -1, ex, unchanged || ex.empty(), what, why);
+		if (ex.empty() && !unchanged) c.fail("C15 %s: a directed use that must not modify anything changed a table: %s", j.cfg.c_str(), what.c_str());
+	}
+	// runs f in a forked child (it may corrupt memory when the misuse is not reported): 0 threw invalid_argument, 1 returned, 2 other exception, 3 crashed
+	int inChild(const std::function<void()>& f) {
+		fflush(nullptr);
+		pid_t pid = fork();
+		if (pid < 0) return 2;
+		if (pid == 0) {
+			int fd = open("/dev/null", O_WRONLY); if (fd >= 0) { dup2(fd, 1); dup2(fd, 2); }
+			int rc = 1;
+			try { f(); } catch (const std::invalid_argument&) { rc = 0; } catch (...) { rc = 2; }
+			_exit(rc);
+		}
+		int status = 0; waitpid(pid, &status, 0);
+		return WIFEXITED(status) ? WEXITSTATUS(status) : 3;
+	}
+	// a misuse that the implementation is known not to report (defect candidates, see the final report of the coverage round): counted,
+	// printed once as NOTE; a FAIL only when VERIF_CANDIDATES is set (the main session decides whether it becomes a known finding)
+	std::set<std::string> noted;
+	void candidate(const std::string& slug, const std::string& text, int rc) {
+		c.stats.evaluations++;
+		if (rc == 0) { c.stats.count("candidate now reported (invalid_argument): " + slug); return; }
+		const char* how = rc == 1 ? "returned normally" : rc == 3 ? "crashed" : "threw something else";
+		c.stats.count("candidate: " + slug + " - " + how);
+		if (getenv("VERIF_CANDIDATES")) c.fail("C15 known-Fxx-candidate %s (%s): %s: %s", slug.c_str(), j.cfg.c_str(), text.c_str(), how);
+		else if (noted.insert(slug).second) printf("NOTE C15 known-Fxx-candidate %s (%s): %s: %s\n", slug.c_str(), j.cfg.c_str(), text.c_str(), how);
+	}
+	void directedMisuse() {
+		const Table& ct = O(0);
+		size_t n = O(0).GetCount(), n1 = O(1).GetCount();
+		std::vector<int> idsA; for (const RowV& r : rowsOf(0)) idsA.push_back(r.id);
+		// ---- DataTable.h:487 operator[] const
+		expectUse(true, fmt("constTable[%zu]", n), "out-of-range row number", [&] { CRef r = ct[n]; (void)r; });
+		expectUse(true, "constTable[SIZE_MAX]", "out-of-range row number", [&] { CRef r = ct[SMAX]; (void)r; });
+		if (n) expectUse(false, fmt("constTable[%zu]", n - 1), "", [&] { CRef r = ct[n - 1]; if ((int)r[CL::ID()] != idsA[n - 1]) throw std::logic_error("wrong row"); });
+		// ---- DataTable.h:559 / 1544 / 1543: a detached row of the other table, an empty index
+		expectUse(true, "A.TryAdd(row of B)", "row of another table", [&] { TryResult r = O(0).TryAdd(makeRow(1, 500, 5, 999)); (void)r; });
+		expectUse(true, "A.Add(row of B)", "row of another table", [&] { O(0).Add(makeRow(1, 501, 5, 999)); });
+		expectUse(true, "A.TryInsert(0, row of B)", "row of another table", [&] { TryResult r = O(0).TryInsert(0, makeRow(1, 502, 5, 999)); (void)r; });
+		expectUse(true, "A.Insert(0, row of B)", "row of another table", [&] { O(0).Insert(0, makeRow(1, 503, 5, 999)); });
+		expectUse(true, "A.FindByUniqueHash(index, row of B)", "row of another table", [&] { Row row = makeRow(1, 10, 5, 999); HPtr p = O(0).FindByUniqueHash(uIdx[0], row); (void)p; });
+		expectUse(true, "A.FindByUniqueHash(empty index, row)", "empty index where an index is required", [&] { Row row = makeRow(0, 10, 5, 999); HPtr p = O(0).FindByUniqueHash(momo::DataUniqueHashIndex::empty, row); (void)p; });
+		expectUse(false, "A.FindByUniqueHash(index, row of A)", "", [&] { Row row = makeRow(0, 10, 5, 999); HPtr p = O(0).FindByUniqueHash(uIdx[0], row); bool want = false; for (const RowV& r : rowsOf(0)) if (r.a == 10) want = true; if (!!p != want) throw std::logic_error("wrong answer"); });
+		// ---- DataTable.h:1375 pvCheckImmutable, DataIndexes.h:1209 GetSortedOffsets, DataRow.h:343 GetMutableByOffset
+		expectUse(true, "A.AddMultiHashIndex(id)", "index over a mutable column", [&] { (void)O(0).AddMultiHashIndex(CL::ID()); });
+		expectUse(true, "A.AddUniqueHashIndex(a, id)", "index over a mutable column", [&] { (void)O(0).AddUniqueHashIndex(CL::A(), CL::ID()); });
+		expectUse(true, "A.AddUniqueHashIndex(a, a)", "the same column twice in an index", [&] { (void)O(0).AddUniqueHashIndex(CL::A(), CL::A()); });
+		expectUse(true, "A.AddMultiHashIndex(b, a, b)", "the same column twice in an index", [&] { (void)O(0).AddMultiHashIndex(CL::B(), CL::A(), CL::B()); });
+		{ int i1 = 10, i2 = 11;
+		  expectUse(true, "A.Select(filter, a == 10, a == 11)", "the same column twice in a query", [&] { Sel x = O(0).Select([](CRef) { return true; }, Eq(CL::A(), i1), Eq(CL::A(), i2)); (void)x; });
+		  expectUse(true, "A.SelectCount(filter, b == 10, a == 10, b == 11)", "the same column twice in a query", [&] { (void)ct.SelectCount([](CRef) { return true; }, Eq(CL::B(), i1), Eq(CL::A(), i1), Eq(CL::B(), i2)); });
+		  expectUse(false, "A.SelectCount(filter, b == 10, a == 10)", "", [&] { (void)ct.SelectCount([](CRef) { return true; }, Eq(CL::B(), i1), Eq(CL::A(), i1)); }); }
+		expectUse(false, "A.AddMultiHashIndex(b) (exists)", "", [&] { if (O(0).AddMultiHashIndex(CL::B()) != mIdx[0]) throw std::logic_error("another index"); });
+		if (n) {
+			expectUse(true, "A[0].GetMutable(a)", "GetMutable of an immutable column", [&] { Ref r = O(0)[0]; (void)r.GetMutable(CL::A()); });
+			expectUse(false, "A[0].GetMutable(id)", "", [&] { Ref r = O(0)[0]; int& x = r.GetMutable(CL::ID()); int y = x; x = y; if (y != idsA[0]) throw std::logic_error("wrong item"); });
+		}
+		// ---- DataIndexes.h:69-101 iterators of a row pointer
+		{
+			int present = n ? rowsOf(0)[0].a : -1, present2 = n > 1 ? rowsOf(0)[1].a : -1, absent = 7777;
+			HPtr z = O(0).FindByUniqueHash(uIdx[0], Eq(CL::A(), absent));
+			expectUse(true, "emptyRowPointer.GetBegin() += 1", "iterator moved out of its range", [&] { auto it = z.GetBegin(); it += 1; });
+			expectUse(true, "*emptyRowPointer.GetBegin()", "end / empty iterator where an element is required", [&] { auto it = z.GetBegin(); Ref r = *it; (void)r; });
+			expectUse(true, "*emptyRowPointer", "end / empty iterator where an element is required", [&] { Ref r = *z; (void)r; });
+			expectUse(true, "emptyRowPointer->", "end / empty iterator where an element is required", [&] { (void)z->GetRaw(); });
+			expectUse(false, "emptyRowPointer.GetBegin() += 0", "", [&] { auto it = z.GetBegin(); it += 0; if (!(it == z.GetEnd())) throw std::logic_error("begin != end"); });
+			if (n) {
+				HPtr p = O(0).FindByUniqueHash(uIdx[0], Eq(CL::A(), present));
+				expectUse(true, "rowPointer.GetBegin() += 2", "iterator moved out of its range", [&] { auto it = p.GetBegin(); it += 2; });
+				expectUse(true, "rowPointer.GetBegin() += -1", "iterator moved out of its range", [&] { auto it = p.GetBegin(); it += -1; });
+				expectUse(true, "*rowPointer.GetEnd()", "end / empty iterator where an element is required", [&] { auto it = p.GetBegin(); it += 1; Ref r = *it; (void)r; });
+				expectUse(false, "rowPointer.GetEnd() - rowPointer.GetBegin()", "", [&] { if (p.GetEnd() - p.GetBegin() != 1 || !(p.GetBegin() < p.GetEnd()) || (int)p->Get(CL::ID()) != idsA[0]) throw std::logic_error("wrong distance"); });
+				expectUse(true, "rowPointer.GetBegin() - emptyRowPointer.GetBegin()", "iterators of different ranges", [&] { (void)(p.GetBegin() - z.GetBegin()); });
+				expectUse(true, "rowPointer.GetBegin() < emptyRowPointer.GetBegin()", "iterators of different ranges", [&] { (void)(p.GetBegin() < z.GetBegin()); });
+				if (n > 1) {
+					HPtr q = O(0).FindByUniqueHash(uIdx[0], Eq(CL::A(), present2));
+					expectUse(true, "rowPointer1.GetBegin() - rowPointer2.GetBegin()", "iterators of different ranges", [&] { (void)(p.GetBegin() - q.GetBegin()); });
+				}
+			}
+		}
+		// ---- DataIndexes.h:193-238 iterators of row bounds: no row, one row (a key without value array), several rows
+		{
+			std::map<int, int> byB; for (const RowV& r : rowsOf(0)) ++byB[r.b];
+			int absent = 7777, single = -1, multi = -1;
+			for (auto& kv : byB) { if (kv.second == 1 && single < 0) single = kv.first; if (kv.second > 1 && multi < 0) multi = kv.first; }
+			HBounds e = O(0).FindByMultiHash(mIdx[0], Eq(CL::B(), absent));
+			expectUse(true, "emptyBounds.GetBegin() += 1", "iterator moved out of its range", [&] { auto it = e.GetBegin(); it += 1; });
+			expectUse(true, "*emptyBounds.GetBegin()", "end / empty iterator where an element is required", [&] { auto it = e.GetBegin(); Ref r = *it; (void)r; });
+			expectUse(false, "emptyBounds.GetBegin() += 0", "", [&] { auto it = e.GetBegin(); it += 0; if (!(it == e.GetEnd())) throw std::logic_error("begin != end"); });
+			if (single >= 0) {
+				HBounds s1 = O(0).FindByMultiHash(mIdx[0], Eq(CL::B(), single));
+				expectUse(true, "oneRowBounds.GetBegin() += 2", "iterator moved out of its range", [&] { auto it = s1.GetBegin(); it += 2; });
+				expectUse(true, "oneRowBounds.GetBegin() += -1", "iterator moved out of its range", [&] { auto it = s1.GetBegin(); it += -1; });
+				expectUse(true, "*oneRowBounds.GetEnd()", "end / empty iterator where an element is required", [&] { auto it = s1.GetBegin(); it += 1; Ref r = *it; (void)r; });
+				expectUse(false, "*oneRowBounds.GetBegin()", "", [&] { Ref r = *s1.GetBegin(); if ((int)r[CL::B()] != single || s1.GetEnd() - s1.GetBegin() != 1) throw std::logic_error("wrong row"); });
+				expectUse(true, "oneRowBounds.GetBegin() - emptyBounds.GetBegin()", "iterators of different ranges", [&] { (void)(s1.GetBegin() - e.GetBegin()); });
+				expectUse(true, "oneRowBounds.GetBegin() < emptyBounds.GetBegin()", "iterators of different ranges", [&] { (void)(s1.GetBegin() < e.GetBegin()); });
+			}
+			if (multi >= 0) {
+				HBounds m2 = O(0).FindByMultiHash(mIdx[0], Eq(CL::B(), multi));
+				ptrdiff_t k = (ptrdiff_t)m2.GetCount();
+				expectUse(true, "rowBounds.GetBegin() += -1", "iterator moved out of its range", [&] { auto it = m2.GetBegin(); it += -1; });
+				expectUse(false, "rowBounds.GetEnd() - rowBounds.GetBegin()", "", [&] { if (m2.GetEnd() - m2.GetBegin() != k || !(m2.GetBegin() < m2.GetEnd())) throw std::logic_error("wrong distance"); auto it = m2.GetBegin(); it += k - 1; if ((int)(*it)[CL::B()] != multi) throw std::logic_error("wrong row"); });
+				expectUse(true, "rowBounds.GetBegin() - emptyBounds.GetBegin()", "iterators of different ranges", [&] { (void)(m2.GetBegin() - e.GetBegin()); });
+				// not reported by the implementation (the iterator does not know the length of the value array): defect candidate
+				candidate("multihash-iterator-unbounded", fmt("FindByMultiHash bounds of %td rows: GetBegin() += %td (one past the end)", k, k + 1), inChild([&] { auto it = m2.GetBegin(); it += k + 1; }));
+				candidate("multihash-iterator-unbounded", fmt("FindByMultiHash bounds of %td rows: *GetEnd() (reads one past the value array)", k), inChild([&] { auto it = m2.GetEnd(); Ref r = *it; (void)r; }));
+			}
+		}
+		// ---- DataSelection.h:60-94, 163-188: iterators of selections and of the table; 332-355, 422: column item bounds; 650, 673: range Add / Insert
+		{
+			Sel all = O(0).Select(), all2 = O(0).Select(), other = O(1).Select();
+			ptrdiff_t k = (ptrdiff_t)all.GetCount();
+			auto same = [&] { if (all.GetCount() != idsA.size()) return false; for (size_t i = 0; i < idsA.size(); ++i) if ((int)all[i][CL::ID()] != idsA[i]) return false; return true; };
+			expectUse(true, "selection.GetBegin() += count + 1", "iterator moved out of its range", [&] { auto it = all.GetBegin(); it += k + 1; });
+			expectUse(true, "selection.GetBegin() += -1", "iterator moved out of its range", [&] { auto it = all.GetBegin(); it += -1; });
+			expectUse(true, "*selection.GetEnd()", "end / empty iterator where an element is required", [&] { Ref r = *all.GetEnd(); (void)r; });
+			expectUse(false, "selection.GetEnd() - selection.GetBegin()", "", [&] { if (all.GetEnd() - all.GetBegin() != k || (all.GetEnd() < all.GetBegin())) throw std::logic_error("wrong distance"); });
+			expectUse(true, "selection1.GetBegin() - selection2.GetBegin() (same table)", "iterators of different ranges", [&] { (void)(all.GetBegin() - all2.GetBegin()); });
+			expectUse(true, "selection1.GetBegin() < selection2.GetBegin() (same table)", "iterators of different ranges", [&] { (void)(all.GetBegin() < all2.GetBegin()); });
+			expectUse(true, "selectionOfA.GetBegin() - selectionOfB.GetBegin()", "iterators of different ranges", [&] { (void)(all.GetBegin() - other.GetBegin()); });
+			expectUse(true, "selectionOfA.GetBegin() < selectionOfB.GetBegin()", "iterators of different ranges", [&] { (void)(all.GetBegin() < other.GetBegin()); });
+			typename Sel::ConstIterator dflt;
+			expectUse(true, "defaultRowIterator += 1", "iterator moved out of its range", [&] { auto it = dflt; it += 1; });
+			expectUse(false, "defaultRowIterator += 0", "", [&] { auto it = dflt; it += 0; });
+			expectUse(true, "*defaultRowIterator", "end / empty iterator where an element is required", [&] { Ref r = *dflt; (void)r; });
+			expectUse(true, "table.GetBegin() += count + 1", "iterator moved out of its range", [&] { auto it = O(0).GetBegin(); it += (ptrdiff_t)n + 1; });
+			expectUse(true, "*table.GetEnd()", "end / empty iterator where an element is required", [&] { Ref r = *O(0).GetEnd(); (void)r; });
+			expectUse(true, "constTable.GetBegin() - otherTable.GetBegin()", "iterators of different ranges", [&] { const Table& cb = O(1); (void)(ct.GetBegin() - cb.GetBegin()); });
+			auto ia = all.GetColumnItems(CL::A()), ib = all.GetColumnItems(CL::B());
+			expectUse(true, "itemsOfA.GetBegin() - itemsOfB.GetBegin()", "iterators of different ranges", [&] { (void)(ia.GetBegin() - ib.GetBegin()); });
+			expectUse(true, "itemsOfA.GetBegin() < itemsOfB.GetBegin()", "iterators of different ranges", [&] { (void)(ia.GetBegin() < ib.GetBegin()); });
+			expectUse(true, "columnItems[count]", "out-of-range selection index", [&] { (void)ia[(size_t)k]; });
+			expectUse(true, "*columnItems.GetEnd()", "end / empty iterator where an element is required", [&] { (void)*ia.GetEnd(); });
+			if (k) expectUse(false, "columnItems[count - 1]", "", [&] { int a = ia[(size_t)k - 1]; int want = rowsOf(0)[n - 1].a; if (a != want || ia.GetEnd() - ia.GetBegin() != k) throw std::logic_error("wrong item"); });
+			expectUse(true, "selection.Insert(count + 1, begin, end)", "out-of-range selection index", [&] { all.Insert((size_t)k + 1, all2.GetBegin(), all2.GetEnd()); }, same);
+			if (n1) {
+				expectUse(true, "selectionOfA.Add(rows of B)", "row reference of another table", [&] { all.Add(other.GetBegin(), other.GetEnd()); }, same);
+				expectUse(true, "selectionOfA.Assign(rows of B)", "row reference of another table", [&] { all.Assign(other.GetBegin(), other.GetEnd()); }, same);
+				if (n) {	// two rows of A, then one of B: what was added is taken back
+					std::vector<Ref> refs; refs.push_back(O(0)[0]); refs.push_back(O(0)[n - 1]); refs.push_back(O(1)[0]);
+					expectUse(true, "selectionOfA.Add(row of A, row of A, row of B)", "row reference of another table", [&] { all.Add(refs.begin(), refs.end()); }, same);
+					expectUse(true, "selectionOfA.Insert(0, row of A, row of A, row of B)", "row reference of another table", [&] { all.Insert(0, refs.begin(), refs.end()); }, same);
+				}
+			}
+			expectUse(false, "selection.Add(begin, end) of the same table", "", [&] { Sel w = all; w.Add(all2.GetBegin(), all2.GetEnd()); if (w.GetCount() != (size_t)(2 * k)) throw std::logic_error("wrong count"); }, same);
+		}
+		// ---- TryUpdate / Update(row number, row of the other table): not checked by the implementation (defect candidate); run in a child
+		if (n) {
+			candidate("update-foreign-row", "A.TryUpdate(0, row of B)", inChild([&] { TryResult r = O(0).TryUpdate(0, makeRow(1, 600, 5, 999)); (void)r; }));
+			candidate("update-foreign-row", "A.Update(0, row of B)", inChild([&] { (void)O(0).Update(0, makeRow(1, 601, 5, 999)); }));
+		}
+		c.stats.count("directed misuse blocks");
+	}
+
 	// ------------------------------------------------------------------------------------------------ enumeration
 	static const int NSTATE = 3, NHANDLE = 11, NOP = 24;
 	void build(int st) {
@@ -2267,6 +3051,7 @@ struct TableRun {
 						c.stats.count("triples executed");
 					}
 				}
+		for (int st = 0; st < NSTATE; ++st) { build(st); directedMisuse(); }
 	}
 	void randomHistory(int steps) {
 		newScenario();
@@ -2306,6 +3091,7 @@ struct TableRun {
 			}
 		}
 		c.stats.count("random histories");
+		if (rng.below(4) == 0) directedMisuse();
 	}
 };
 
@@ -2325,15 +3111,28 @@ int main(int argc, char** argv) {
 	runHash<SetAd<ModTraits<momo::HashBucketDefault, true>>>(c, rng, "set_default", "HashSet<default bucket>");
 	runHash<SetAd<ModTraits<momo::HashBucketOpen8, true>>>(c, rng, "set_open8", "HashSet<Open8>");
 	runHash<SetAd<ModTraits<momo::HashBucketLimP4<2>, false>>>(c, rng, "set_limp4_slowhash", "HashSet<LimP4<2>, slow hash>");
+	runGrowthChecks<SetAd<GrowTraits<momo::HashBucketDefault>>>(c, "HashSet<default bucket>");
+	runGrowthChecks<SetAd<GrowTraits<momo::HashBucketOpen8>>>(c, "HashSet<Open8>");
+	runHolderChecks<SetAd<ModTraits<momo::HashBucketDefault, true>>>(c, "HashSet<default bucket>");
 #elif VF_PART == 1
 	runHash<MapAd<ModTraits<momo::HashBucketDefault, true>>>(c, rng, "map_default", "HashMap<default bucket>");
 	runHash<MapAd<ModTraits<momo::HashBucketOpenN1<>, true>>>(c, rng, "map_openn1", "HashMap<OpenN1>");
+	runGrowthChecks<MapAd<GrowTraits<momo::HashBucketDefault>>>(c, "HashMap<default bucket>");
+	runGrowthChecks<MapAd<GrowTraits<momo::HashBucketLimP4<2>>>>(c, "HashMap<LimP4<2>>");
+	runHolderChecks<MapAd<ModTraits<momo::HashBucketDefault, true>>>(c, "HashMap<default bucket>");
 #elif VF_PART == 2
 	runTree<TSetAd<momo::TreeTraits<uint32_t, false>>>(c, rng, "tset_default", "TreeSet<default node>");
 	runTree<TSetAd<momo::TreeTraits<uint32_t, false, momo::TreeNode<4, 2>>>>(c, rng, "tset_small", "TreeSet<TreeNode<4,2>>");
+	runHolderChecks<TSetAd<momo::TreeTraits<uint32_t, false>>>(c, "TreeSet<default node>");
 #elif VF_PART == 6
 	runTree<TSetAd<momo::TreeTraits<uint32_t, true, momo::TreeNode<4, 1>>>>(c, rng, "tmultiset_small", "TreeMultiSet<TreeNode<4,1>>");
 	runTree<TMapAd<momo::TreeTraits<uint32_t, false, momo::TreeNode<6, 3>>>>(c, rng, "tmap_small", "TreeMap<TreeNode<6,3>>");
+	runHolderChecks<TMapAd<momo::TreeTraits<uint32_t, false, momo::TreeNode<6, 3>>>>(c, "TreeMap<TreeNode<6,3>>");
+#elif VF_PART == 8
+	runTreeNV<TSetAd<momo::TreeTraits<uint32_t, false>, XTSetNV>>(c, rng, "tset_default_noversion", "TreeSet<default node, checkVersion=false>");
+	runTreeNV<TSetAd<momo::TreeTraits<uint32_t, false, momo::TreeNode<4, 2>>, XTSetNV>>(c, rng, "tset_small_noversion", "TreeSet<TreeNode<4,2>, checkVersion=false>");
+	runTreeNV<TSetAd<momo::TreeTraits<uint32_t, true, momo::TreeNode<4, 1>>, XTSetNV>>(c, rng, "tmultiset_small_noversion", "TreeMultiSet<TreeNode<4,1>, checkVersion=false>");
+	runTreeNV<TMapAd<momo::TreeTraits<uint32_t, false, momo::TreeNode<6, 3>>, XTMapNV>>(c, rng, "tmap_small_noversion", "TreeMap<TreeNode<6,3>, checkVersion=false>");
 #elif VF_PART == 3
 	runMulti<ModTraitsM<momo::HashBucketDefault>>(c, rng, "mmap_default", "HashMultiMap<default bucket>");
 	runMulti<ModTraitsM<momo::HashBucketOpen8>>(c, rng, "mmap_open8", "HashMultiMap<Open8>");
